@@ -230,6 +230,42 @@ Proof.
   - rewrite (pass_app (S f) ts _ post (t_content t, true) (post, false) Pc P2). reflexivity.
 Qed.
 
+(* the general form: a call with arguments behaves exactly as the content with the parameters replaced, written at
+   that place *)
+Theorem template_call_is_inlining ts t hd sp sp1 sp2 args pre post f :
+  find_template ts (t_name t) = Some t -> length args = length (t_vars t) ->
+  (hd = A_expand \/ hd = A_expand_short) ->
+  let body := map (subst (t_vars t) args) (t_content t) in
+  Forall plain body -> Forall quiet body -> Forall quiet pre -> Forall quiet post ->
+  (depths (pre ++ body ++ post) <= f)%nat ->
+  expand (S (S f)) ts (pre ++ [SList (Atom hd sp1 :: Atom (t_name t) sp2 :: args) sp] ++ post)
+  = expand (S f) ts (pre ++ body ++ post)
+  /\ expand (S f) ts (pre ++ body ++ post) = Ok (inr (pre ++ body ++ post)).
+Proof.
+  intros Hf Hlen Hhd body Hpl Hq Hpre Hpost Hd.
+  assert (Hall : Forall quiet (pre ++ body ++ post)) by (repeat (apply Forall_app; split); assumption).
+  destruct (quiet_expand ts f _ Hall Hd) as [He _]. split; [|exact He].
+  assert (Dpre : (depths pre <= f)%nat /\ (depths post <= f)%nat).
+  { clear -Hd. induction pre as [|x r IH]; cbn [app depths] in *.
+    - split; [lia|]. induction body as [|y c IHc]; cbn [app depths] in *; [exact Hd|apply IHc; lia].
+    - destruct (IH ltac:(lia)). split; lia. }
+  destruct Dpre as [D1 D2].
+  destruct (quiet_expand ts (S f) pre Hpre ltac:(lia)) as [_ P1].
+  destruct (quiet_expand ts (S f) post Hpost ltac:(lia)) as [_ P2].
+  assert (Hcall : expand_call (S f) ts (Atom hd sp1 :: Atom (t_name t) sp2 :: args) = Ok (inr body)).
+  { unfold body. change args with (skipn 2 (Atom hd sp1 :: Atom (t_name t) sp2 :: args)) at 2.
+    apply (call_is_substituted_content f ts _ (Atom (t_name t) sp2) t); try reflexivity; try assumption.
+    cbn [length]. lia. }
+  assert (Pc : pass_ (S f) ts [SList (Atom hd sp1 :: Atom (t_name t) sp2 :: args) sp] = Ok (inr (body, true))).
+  { cbn [pass_]. assert (Hh : is_expand_head (Atom hd sp1 :: Atom (t_name t) sp2 :: args) = true).
+    { unfold is_expand_head. cbn [head_is]. destruct Hhd as [->| ->]; rewrite bytes_eqb_refl; [reflexivity|apply orb_true_r]. }
+    rewrite Hh, Hcall. cbn [bind]. rewrite app_nil_r. reflexivity. }
+  rewrite expand_S.
+  rewrite (pass_app (S f) ts pre _ (pre, false) (body ++ post, true) P1).
+  - cbn [bind fst snd orb]. reflexivity.
+  - rewrite (pass_app (S f) ts _ post (body, true) (post, false) Pc P2). reflexivity.
+Qed.
+
 (* non-vacuity: a concrete parameterised template and call *)
 Local Open Scope string_scope.
 Example template_example :
